@@ -624,7 +624,9 @@ def check_sorted_is_written(ctx, f, call):
         size_only = txt in (recv, f"len({recv})", f"len({recv}) > 1", f"len({recv}) >= 2", f"len({recv}) > 0", f"len({recv}) != 0") and pol
         if size_only:
             continue
-        if recv is not None and recv not in names and not any(recv in norm(d) for d in _defs_of(f, names)):
+        fill_loops = [l_ for l_ in walk_own(f.node) if isinstance(l_, (ast.For, ast.While)) and any(isinstance(c_, ast.Call) and isinstance(c_.func, ast.Attribute) and c_.func.attr == "append" and norm(c_.func.value) == recv for c_ in ast.walk(l_))]
+        per_record = any(isinstance(a_, ast.Assign) and any(isinstance(t_, ast.Name) and t_.id in names for t_ in a_.targets) for l_ in fill_loops for a_ in ast.walk(l_))  # a flag updated record by record while the list is filled
+        if recv is not None and recv not in names and not per_record and not any(recv in norm(d) for d in _defs_of(f, names)):
             continue  # not about the list (an option of the command, the handle): other rules decide those
         asks_cmp = cmp_name is not None and any(isinstance(x, ast.Call) and norm(x.func) == cmp_name for x in ast.walk(t)) or any(cmp_name is not None and cmp_name in norm(d) for d in _defs_of(f, names))
         if asks_cmp:
@@ -701,6 +703,19 @@ def check_provenance(ctx):
                     return
         raise AnalysisError("R08.2", where, "cannot find the forward/reverse branch (if on orientation counts assigning the key)")
 
+    # the keys the branch reads from the anchor node are the keys returned: nothing binds them again afterwards (a later
+    # "sanity check" that demotes the record to BO = NO = -1 takes records out of their place in the order)
+    key_vars = {norm(t_) for st_ in list(walk_stmts(branch.body)) + list(walk_stmts(branch.orelse)) if isinstance(st_, ast.Assign) and "tags[" in norm(st_.value) for t_ in st_.targets}
+    rets_ = [norm(e_) for r_ in walk_own(pa.node) if isinstance(r_, ast.Return) and isinstance(r_.value, ast.Tuple) for e_ in r_.value.elts]
+    for st_ in walk_stmts(pa.node.body):
+        if isinstance(st_, ast.Assign) and pa.before(branch, st_) and not any(x_ is st_ for x_ in ast.walk(branch)):
+            tg_ = {norm(e_) for t_ in st_.targets for e_ in (t_.elts if isinstance(t_, ast.Tuple) else [t_])}
+            hit = sorted(tg_ & key_vars & set(rets_))
+            if hit:
+                from .c09 import guards_of as _gof
+
+                gs_ = [norm(g_) for g_, _p in _gof(pa.node, st_)]
+                ctx.violated("R08.2", pa.where(st_), f"`{norm(st_)[:50]}` binds the key{'s' if len(hit) > 1 else ''} {', '.join(hit)} again after they were read from the anchor node" + (f" (when `{gs_[0][:50]}`)" if gs_ else "") + ": records it applies to are not ordered by the BO / NO of their anchor (with -1 they are put behind all tagged records)", key_of(pa, f"key-rebound-after-anchor:{','.join(hit)}"))
     # decision table of the branch test over (count('>'), count('<'))
     def atom_of(e, depth=0):
         if isinstance(e, ast.Call) and isinstance(e.func, ast.Attribute) and e.func.attr == "count" and e.args:
@@ -854,7 +869,12 @@ def role_name_is_start(pa, var):
     """var is the variable returned in the 'start' position (3rd) of the key tuple."""
     for r in walk_own(pa.node):
         if isinstance(r, ast.Return) and isinstance(r.value, ast.Tuple) and len(r.value.elts) >= 3:
-            return norm(r.value.elts[2]) == var
+            if norm(r.value.elts[2]) == var:
+                return True
+            # returned at another position (the tuple was reordered, with its unpacking site): the start is the one returned
+            # value that is computed from the path columns and handed to the record's `start` field by the caller
+            if var in [norm(e) for e in r.value.elts] and not any(k_ in var.lower() for k_ in ("bo", "no", "sn", "inv")):
+                return True
     return False
 
 
